@@ -662,6 +662,29 @@ def run(ctx, res):
         else:
             res.ok("EXIT-RESTORE", "eval::eval: every error return after popping the return value pushes it back first")
     res.floor("EXIT-RESTORE", "return-value pops at frame exit", n_exit, 1)
+    # ---- RESUME-ENTRY (MIR): eval may return without running anything only when it is at the top level with nothing
+    # pending. A callee frame with nothing pending still has work to repeat (its return-type check), so the early
+    # return must be behind `stack.len() == 1`; otherwise `:resume` after a failed return hint answers Unit.
+    rets = set(L.return_bbs)
+    early = D.reach_from(f, [0], avoid_blocks=[L.pop_bb]) & rets
+    if early:
+        guard_edges = []
+        for sw in D.bool_switches(f):
+            r = sw["root"]
+            if r[0] == "rv" and r[3]["rv"]["k"] == "binop" and r[3]["rv"]["op"] == "Eq" and D.const_int(f, r[3]["rv"]["b"]) == 1:
+                la = f.root_of(r[3]["rv"]["a"], through_named=True)
+                if la[0] == "call" and (M.callee_name(la[2]) or "").endswith("::len") and "StackFrame" in ((la[2].get("argtys") or [""])[0]):
+                    if sw["true"] is not None:
+                        guard_edges.append((sw["bb"], sw["true"]))
+        leak = D.reach_from(f, [0], avoid_blocks=[L.pop_bb], avoid_edges=guard_edges) & rets
+        if guard_edges and not leak:
+            res.ok("RESUME-ENTRY", "eval::eval returns without stepping only behind `stack.len() == 1` (top level, nothing pending)")
+        else:
+            res.bad("RESUME-ENTRY", "eval::eval # early-return-not-toplevel",
+                    "eval::eval can return without entering its loop when it is not at the top-level frame: a `:resume` after a "
+                    "failed return-type check then answers Unit instead of repeating the error", f.loc())
+    else:
+        res.ok("RESUME-ENTRY", "eval::eval has no return that bypasses its loop")
     res.extra.update({"sites": len(all_sites), "wrong_sites": n_bad, "functions_analysed": len(targets)})
     res.explanation = (
         "RESTORE-SEQ walks every function returning (RestoreValues, EvalError) and tracks two symbolic sequences: the values "
